@@ -564,6 +564,7 @@ void Bus::respond() {
   if (!repeatResponseOnly) {
     char k = m_emAttempt == 0 ? m_react.ack1 : m_react.ack2;
     sim::count(std::string("bus.react_ack_") + k);
+    if (k == 'N') sim::count("fault.slave_nak"); else if (k == '-') sim::count("fault.slave_silent"); else if (k != 'A') sim::count("fault.slave_wrong_ack");
     if (k != 'A' && onExchange) onExchange(m_em, Bytes(), false);   // the request was seen but not accepted
     if (k == '-') { return; }
     if (k == 'S') { add(ref::SYN); sendList(l, 0, gen); return; }
@@ -580,6 +581,7 @@ void Bus::respond() {
   }
   char rk = m_emRespAttempt == 0 ? m_react.resp1 : m_react.resp2;
   sim::count(std::string("bus.react_resp_") + rk);
+  if (rk == 'C') sim::count("fault.slave_bad_crc"); else if (rk == '-') sim::count("fault.slave_no_response"); else if (rk != 'G') sim::count("fault.slave_malformed_response");
   if (rk == '-' && onExchange) onExchange(m_em, Bytes(), false);   // acknowledged, but no response follows
   if (rk != '-') {
     Bytes data = m_react.respData;
